@@ -3,8 +3,23 @@ package main
 // The property table: which harness functions decide which property, under which bounds.
 // Bounds registered here have run conclusively on the unchanged tree (DESIGN section 5).
 
+const numberLess = "(github.com/openconfig/goyang/pkg/yang.Number).Less"
+
+var h10Redirects = map[string]string{"ParseInt": "h10StubInt", "ParseDecimal": "h10StubDec"}
+
 func properties() []Property {
 	return []Property{
+		{
+			ID: "C14",
+			Harnesses: []Harness{
+				{Name: "H14a-enum", Pkg: "yang", Fn: "H14a", Quick: map[string]int{"m": 3, "bits": 0}, Thorough: map[string]int{"m": 4, "bits": 0},
+					Reach: []string{"all-accepted", "rejected"}, MaxSteps: 5000000, TimeoutMs: 60000,
+					Bound: "every enumeration member sequence of length m: names over m letters (every equality pattern), every explicit/implicit mix, every explicit value a full int64", Outside: "more than m members; the text-to-int64 conversion of the value argument (C15, and H14u)"},
+				{Name: "H14a-bits", Pkg: "yang", Fn: "H14a", Quick: map[string]int{"m": 3, "bits": 1}, Thorough: map[string]int{"m": 4, "bits": 1},
+					Reach: []string{"all-accepted", "rejected"}, MaxSteps: 5000000, TimeoutMs: 60000,
+					Bound: "every bits member sequence of length m, as above", Outside: "repeated bit positions (the property does not ask for their uniqueness; assumed away); more than m members"},
+			},
+		},
 		{
 			ID: "C15",
 			Harnesses: []Harness{
@@ -34,6 +49,29 @@ func properties() []Property {
 					Bound: "fraction parts of 254..258 digits (the code narrows the fraction length to 8 bits: bound derived from the code), every requested precision 1..18", Outside: "other lengths above 19"},
 			},
 			Assumptions: []string{"strconv.FormatUint replaced by a digit-chain intrinsic (symDecimal) when its argument is symbolic"},
+		},
+		{
+			ID: "C10",
+			Harnesses: []Harness{
+				{Name: "H10a-int", Pkg: "yang", Fn: "H10a", Quick: map[string]int{"k": 2, "p": 2, "mm": 1, "fdlo": 0, "fdhi": 0},
+					Thorough:  map[string]int{"k": 3, "p": 2, "mm": 1, "fdlo": 0, "fdhi": 0},
+					Redirects: h10Redirects, Summaries: []string{numberLess}, Reach: []string{"accepted", "rejected"}, MaxSteps: 50000000, TimeoutMs: 60000,
+					Bound:     "integer ranges and lengths: every restriction skeleton of k parts (each a single value or a pair; every endpoint a number, min or max) x every valid parent set of p parts; all endpoints arbitrary 64-bit magnitudes with sign; one universally quantified member x",
+					Outside:   "more than k written parts or p parent parts; the textual number syntax (decided by C15: the number parsers are stubbed by arbitrary Numbers here)"},
+				{Name: "H10a-dec-lo", Pkg: "yang", Fn: "H10a", Quick: map[string]int{"k": 2, "p": 1, "mm": 1, "fdlo": 1, "fdhi": 2},
+					Thorough:  map[string]int{"k": 2, "p": 2, "mm": 1, "fdlo": 1, "fdhi": 9},
+					Redirects: h10Redirects, Summaries: []string{numberLess}, Reach: []string{"accepted", "rejected"}, MaxSteps: 50000000, TimeoutMs: 60000,
+					Bound:     "decimal64 ranges at fraction-digits fdlo..fdhi: every skeleton of k parts x every valid parent of p parts; endpoints arbitrary signed 64-bit mantissas",
+					Outside:   "as H10a-int"},
+				{Name: "H10a-dec-hi", Pkg: "yang", Fn: "H10a", Quick: map[string]int{"k": 2, "p": 1, "mm": 1, "fdlo": 17, "fdhi": 18},
+					Thorough:  map[string]int{"k": 2, "p": 2, "mm": 1, "fdlo": 10, "fdhi": 18},
+					Redirects: h10Redirects, Summaries: []string{numberLess}, Reach: []string{"accepted", "rejected"}, MaxSteps: 50000000, TimeoutMs: 60000,
+					Bound:     "decimal64 ranges at fraction-digits fdlo..fdhi: every skeleton of k parts x every valid parent of p parts; endpoints arbitrary signed 64-bit mantissas",
+					Outside:   "as H10a-int"},
+			},
+			Assumptions: []string{"ParseInt/ParseDecimal are redirected (inside the C10 harness only) to a stub returning an arbitrary Number: the stub's contract 'returns the number the token denotes' is what C15 decides for the real parsers; native replay uses the real parsers on printed model values",
+				"Number.Less is summarised (all its paths merged into one term per call, recomputed from its current SSA at every call)",
+				"parent sets satisfy the representation invariant (valid, ascending, disjoint, non-adjacent) - the inductive hypothesis of a derivation chain; result sets are checked to satisfy it again"},
 		},
 		{
 			ID: "C20",
